@@ -49,6 +49,7 @@ trait Dispatch {
     fn replay(&self, path: &str) -> i32;
     fn runs(&self, tier: Tier) -> u64;
     fn show(&self, tier: Tier, seed: u64, idx: u64) -> String;
+    fn isolated(&self, index: usize);
 }
 
 impl<C: Campaign> Dispatch for C {
@@ -63,6 +64,9 @@ impl<C: Campaign> Dispatch for C {
     }
     fn runs(&self, tier: Tier) -> u64 {
         Campaign::runs(self, tier)
+    }
+    fn isolated(&self, index: usize) {
+        campaign::run_isolated(self, index)
     }
     fn show(&self, tier: Tier, seed: u64, idx: u64) -> String {
         let mut rng = rng::Rng::new(rng::run_seed(seed, self.id(), idx / self.group(tier).max(1)));
@@ -97,6 +101,14 @@ fn main() {
             let hashes_only = args.iter().any(|a| a == "--hashes-only");
             with_campaign(&prop, &mut |c| {
                 c.worker(tier, seed, shard, shards, total, hashes_only);
+                0
+            })
+        }
+        "isolated" => {
+            let prop = args.get(2).cloned().unwrap_or_default();
+            let idx: usize = args.get(3).and_then(|s| s.parse().ok()).unwrap_or(0);
+            with_campaign(&prop, &mut |c| {
+                c.isolated(idx);
                 0
             })
         }
